@@ -15,7 +15,7 @@ const (
 	Error
 	Int
 	Bulk
-	Nil      // null bulk
+	Nil // null bulk
 	Array
 	NilArray // null array
 	None     // executor returned a nil result (client would get "-unknown error")
